@@ -259,8 +259,17 @@ Definition fmt_map (fixed : bool) (lvl : nat) (multi : list str) (kvs : list (st
       ++ [T k_rcu]
   end.
 
+(* Which of the proposed repairs the model includes.  [current_fixes] is what
+   /repo contains now (the correspondence run compares [format current_fixes]
+   with Program.Format()); after a repair is committed to /repo, flip its flag here. *)
+Record fixes := { fix_nl : bool;    (* proposed_fixes/C07-nlafter-last-of-run.diff *)
+                  fix_br : bool }.  (* proposed_fixes/C07-close-bracket-after-comment.diff *)
+Definition no_fixes : fixes := {| fix_nl := false; fix_br := false |}.
+Definition all_fixes : fixes := {| fix_nl := true; fix_br := true |}.
+Definition current_fixes : fixes := no_fixes.
+
 Section Fmt.
-  Variable fixed : bool.   (* false: the code as it is; true: with the proposed repairs *)
+  Variable fixed : fixes.
 
   (* format(n) for expression nodes; lvl = f.indentLevel *)
   Fixpoint fmt_expr (lvl : nat) (e : fexpr) {struct e} : list piece :=
@@ -270,8 +279,8 @@ Section Fmt.
     | FStr _ q => [Q q]
     | FBool b => [T (if b then k_true else k_false)]
     | FAny e => fmt_expr lvl e
-    | FArr items els => fmt_array fixed lvl (format_multiline items) (map (fmt_expr (S lvl)) els)
-    | FMap items keys vals => fmt_map fixed lvl (format_multiline items) (combine keys (map (fmt_expr (S lvl)) vals))
+    | FArr items els => fmt_array (fix_br fixed) lvl (format_multiline items) (map (fmt_expr (S lvl)) els)
+    | FMap items keys vals => fmt_map (fix_br fixed) lvl (format_multiline items) (combine keys (map (fmt_expr (S lvl)) vals))
     | FCall name args => T name :: flat_map (fun a => Sp :: fmt_expr lvl a) args     (* formatFuncCall *)
     | FUn op r => T (op_str op) :: fmt_expr lvl r
     | FBin op wss l r => fmt_expr lvl l ++ write_wss wss ++ [T (op_str op)] ++ write_wss wss ++ fmt_expr lvl r
@@ -375,7 +384,7 @@ Section Fmt.
   Definition fmt_prog (p : fprog) : list piece :=
     match p with
     | [] => [NL]
-    | _ => prog_loop (nl_after fixed (map stmt_kind p)) 0 false p
+    | _ => prog_loop (nl_after (fix_nl fixed) (map stmt_kind p)) 0 false p
     end.
 
   (* Program.Format *)
@@ -666,7 +675,7 @@ Definition ends_one_nl (s : str) : bool :=
 (* ---------- `evy fmt --check` (main.go: format(b, checkOnly)) ---------- *)
 (* parse is a parameter: the formatter-side model of the check is
    "accept t iff parse t succeeds and t = Format (parse t)". *)
-Definition fmt_check (parse : str -> option fprog) (fixed : bool) (t : str) : bool :=
+Definition fmt_check (parse : str -> option fprog) (fixed : fixes) (t : str) : bool :=
   match parse t with
   | Some p => if str_eq_dec t (format fixed p) then true else false
   | None => false
@@ -682,11 +691,11 @@ Definition enc_kind (k : skind) : sx :=
 Definition format_case (x : sx) : sx :=
   match dec_fprog x with
   | Some p =>
-      let t := format false p in
+      let t := format current_fixes p in
       Lst [Sym (s_ "ok"); Str t; Lst (map Str (tokens_of_ast p)); sx_bool (wf_prog p);
-           sx_bool (shape_lines t); sx_bool (ends_one_nl t); Str (format true p);
-           enc_nats (nl_after false (map stmt_kind p));
-           Lst (map enc_kind (skel_step false (map stmt_kind p)));
+           sx_bool (shape_lines t); sx_bool (ends_one_nl t); Str (format all_fixes p);
+           enc_nats (nl_after (fix_nl current_fixes) (map stmt_kind p));
+           Lst (map enc_kind (skel_step (fix_nl current_fixes) (map stmt_kind p)));
            Str (strip_ws t)]
   | None => Sym (s_ "decode-error")
   end.
